@@ -595,6 +595,25 @@ func TestVerif_C27(t *testing.T) {
 		fams = append(fams, family{"depth2/full", [][]c27Entry{full, full}})
 		r.Info["bounds"] = "all archives of <= 2 entries over the full alphabet; depth 3: all archives over the reduced alphabet, and symlink(full),symlink(full),file(reduced names)"
 	}
+	// a 5-entry family around "a hard link to a symlink replaces an (empty) directory that was already
+	// checked": dir D1; symlink D1/l -> up^k; dir D2; hardlink D2 => D1/l; file D2/f
+	{
+		var p1, p2, p3, p4, p5 []c27Entry
+		for _, d := range []string{"a/b", "b/c"} {
+			p1 = append(p1, c27Entry{T: "d", Name: d})
+			for _, t := range []string{"..", "../..", "../../.."} {
+				p2 = append(p2, c27Entry{T: "s", Name: d + "/l", Link: t})
+			}
+		}
+		for _, d := range []string{"c", "a/c"} {
+			p3 = append(p3, c27Entry{T: "d", Name: d})
+			for _, l := range []string{"a/b/l", "b/c/l"} {
+				p4 = append(p4, c27Entry{T: "h", Name: d, Link: l})
+			}
+			p5 = append(p5, c27Entry{T: "f", Name: d + "/f"}, c27Entry{T: "f", Name: d + "/secret"})
+		}
+		fams = append(fams, family{"depth5/dir,symlink,dir,hardlink-over-dir,file", [][]c27Entry{p1, p2, p3, p4, p5}})
+	}
 	n := 0
 	for _, f := range fams {
 		idx := make([]int, len(f.pos))
